@@ -4,6 +4,7 @@ import (
 	"fmt"
 	"io"
 	"math/big"
+	"sort"
 
 	"github.com/tuneinsight/lattigo/v6/core/rlwe"
 	"github.com/tuneinsight/lattigo/v6/multiparty"
@@ -107,6 +108,7 @@ var worldCache struct {
 func newWorld(c *engine.Chooser, name string, k cfg, pts []uint64) (w *world, ok bool) {
 	if k.n > 1 {
 		c.Cover("thresholdizer-history", "after-another-sharing")
+		c.Cover("retained-objects", "input-overwritten")
 	}
 	for j := 0; j < k.n; j++ {
 		for r := 0; r < k.n; r++ {
@@ -142,9 +144,17 @@ func newWorld(c *engine.Chooser, name string, k cfg, pts []uint64) (w *world, ok
 				_ = w.thr[j].AggregateShares(ws, ws, &ws)
 			}
 		}
-		pol, err := w.thr[j].GenShamirPolynomial(k.t, w.sks[j])
+		// The key object handed to GenShamirPolynomial is the caller's: it may legally be overwritten later (e.g. as the
+		// output of GenAdditiveShare). The retained polynomial must not depend on it: no shared memory, and the shares
+		// dealt in a second session, after the key object was overwritten, are still points of the same polynomial.
+		skIn := w.sks[j].CopyNew()
+		pol, err := w.thr[j].GenShamirPolynomial(k.t, skIn)
 		if err != nil {
 			c.Fail("C15/GenShamirPolynomial/error", "threshold %d: %v", k.t, err)
+			return nil, false
+		}
+		if ov := mp.Overlap([]interface{}{"polynomial", &pol}, []interface{}{"secret", skIn}); ov != "" {
+			c.Fail("C15/GenShamirPolynomial/retains-the-callers-key-memory", "the returned polynomial aliases its input: %s", ov)
 			return nil, false
 		}
 		if len(pol.Value) != k.t {
@@ -164,6 +174,10 @@ func newWorld(c *engine.Chooser, name string, k cfg, pts []uint64) (w *world, ok
 		// the share of the previous recipient / a buffer that holds a share of another sharing (uniform content).
 		outgoing := w.thr[j].AllocateThresholdSecretShare()
 		for r := 0; r < k.n; r++ {
+			if r == (k.n+1)/2 {
+				// second dealing session: the key object the polynomial was built from has been reused since
+				ringqp.NewUniformSampler(uni.KeyedPRNG(name, "key-object-reused", j), *params.RingQP()).Read(skIn.Value)
+			}
 			var buf multiparty.ShamirSecretShare
 			kind := shareBufferKind(j, r)
 			switch kind {
@@ -176,6 +190,12 @@ func newWorld(c *engine.Chooser, name string, k cfg, pts []uint64) (w *world, ok
 				ringqp.NewUniformSampler(uni.KeyedPRNG(name, "stale-share", j, r), *params.RingQP()).Read(buf.Poly)
 			}
 			w.thr[j].GenShamirSecretShare(multiparty.ShamirPublicPoint(pts[r]), pol, &buf)
+			if r == 0 {
+				if ov := mp.Overlap([]interface{}{"share", &buf}, []interface{}{"polynomial", &pol, "thresholdizer", &w.thr[j]}); ov != "" {
+					c.Fail("C15/GenShamirSecretShare/output-aliases-polynomial-or-thresholdizer", "%s", ov)
+					return nil, false
+				}
+			}
 			w.shares[j][r] = multiparty.ShamirSecretShare{Poly: *buf.Poly.CopyNew()}
 			outgoing.Poly.Copy(buf.Poly) // the outgoing buffer now holds the share just sent
 			want := mp.EvalShamir(w.refPol[j], pts[r])
@@ -412,7 +432,11 @@ func combineLeaf(c *engine.Chooser, name string, k cfg) {
 	c.State(name, mode, fmt.Sprint(act), oo, hist)
 
 	genShare := func(p int) (*rlwe.SecretKey, error, interface{}) {
-		cmb := multiparty.NewCombiner(params, multiparty.ShamirPublicPoint(w.pts[p]), others(p), k.t)
+		oth := others(p)
+		cmb := multiparty.NewCombiner(params, multiparty.ShamirPublicPoint(w.pts[p]), oth, k.t)
+		for i := range oth { // the caller's slice of points is reused after construction: the combiner must not depend on it
+			oth[i] = multiparty.ShamirPublicPoint(0xdead0000 + uint64(i))
+		}
 		if hist > 0 {
 			scratch := rlwe.NewSecretKey(params)
 			_, _ = uni.Try(func() error {
@@ -426,6 +450,12 @@ func combineLeaf(c *engine.Chooser, name string, k cfg) {
 		err, pan := uni.Try(func() error {
 			return cmb.GenAdditiveShare(actPts, multiparty.ShamirPublicPoint(w.pts[p]), tsks[p], out)
 		})
+		if err == nil && pan == nil && len(act) > 0 && p == act[0] && oo == 0 && hist == 0 && sort.IntsAreSorted(act) {
+			// outputs never alias the callee's memory or its inputs
+			if ov := mp.Overlap([]interface{}{"additive share", out}, []interface{}{"combiner", &cmb, "own share", &tsks[p]}); ov != "" {
+				c.Fail("C15/GenAdditiveShare/output-aliases-combiner-or-input", "%s", ov)
+			}
+		}
 		return out, err, pan
 	}
 
